@@ -462,21 +462,29 @@ struct QueueProg : Program
 };
 
 // ------------------------------------------------------------------ registration
+static void add_one(const std::string &pname, std::function<Program *()> make, int b, int spurious, bool thorough_only);
 static void add_prog(const std::string &pname, std::function<Program *()> make, int qbound, int tbound)
 {
     // bound qbound contains every smaller bound; bound 0 is kept as the cheap sanity level
-    for (int b : {0, qbound, tbound})
+    add_one(pname, make, 0, 0, false);
+    add_one(pname, make, qbound, 0, false);
+    if (tbound != qbound)
+        add_one(pname, make, tbound, 0, true);
+}
+static void add_one(const std::string &pname, std::function<Program *()> make, int b, int spurious, bool thorough_only)
+{
     {
-        if (b == tbound && tbound == qbound)
-            continue;
-        mc::add_check(mc::fmt("%s.pb%d", pname.c_str(), b), [=] {
+        {
+        mc::add_check(spurious ? mc::fmt("%s.pb%d.spurious%d", pname.c_str(), b, spurious) : mc::fmt("%s.pb%d", pname.c_str(), b), [=] {
             int shard = mc::choose(NSHARD);
             sched::Options o;
             o.preemption_bound = b;
+            o.spurious_bound = spurious;
             o.shard = shard;
             o.nshard = NSHARD;
             o.shard_depth = 6;
             mc::crash_context("C20.%s.race_or_crash", pname.c_str());
+            mc::describe("%s bound=%d (the execution died before it completed)", pname.c_str(), b);
             sched::begin(o);
             std::unique_ptr<Program> p(make());
             p->setup();
@@ -492,7 +500,7 @@ static void add_prog(const std::string &pname, std::function<Program *()> make, 
                 throw mc::Skip();
             }
             mc::describe("%s bound=%d preemptions=%d steps=%d: %s", pname.c_str(), b, r.preemptions, r.steps, r.trace.c_str());
-            if (r.preemptions >= 1)
+            if (r.preemptions >= 1 || r.spurious >= 1)
                 mc::nontrivial();
             if (r.horizon_hit)
                 mc::violation("C20." + pname + ".livelock", "no termination within the step horizon: %s", r.trace.c_str());
@@ -504,7 +512,8 @@ static void add_prog(const std::string &pname, std::function<Program *()> make, 
             p->check(r);
             if (r.deadlock || r.horizon_hit)
                 (void)p.release(); // parked threads still reference the program state
-        }, b > qbound /* thorough tier only */);
+        }, thorough_only);
+        }
     }
 }
 
@@ -513,7 +522,10 @@ MC_INIT
     for (int v = 0; v < 3; v++)
         add_prog(LockProg(v).name, [v] { return new LockProg(v); }, 2, 3);
     for (int v = 0; v < 6; v++)
+    {
         add_prog(WaitProg(v).name, [v] { return new WaitProg(v); }, 2, 3);
+        add_one(WaitProg(v).name, [v] { return new WaitProg(v); }, 2, 1, true); // + one spurious condvar wake-up
+    }
     for (int c = 1; c <= 2; c++)
         add_prog(QueueProg(c).name, [c] { return new QueueProg(c); }, c == 1 ? 2 : 1, c == 1 ? 3 : 2);
 }
